@@ -22,7 +22,7 @@ func VerifDecompose(a int32) (a1, a0 int32) {
 	a1 = decompose(&a0, a)
 	return
 }
-func VerifMakeHint(a0, a1 int32) uint     { return makeHint(a0, a1) }
+func VerifMakeHint(a0, a1 int32) uint      { return makeHint(a0, a1) }
 func VerifUseHint(a int32, hint int) int32 { return useHint(a, hint) }
 
 func VerifNTT(a *[N]int32)          { ntt(a) }
